@@ -52,7 +52,7 @@ var netAlgProfile = func() [][2]string {
 	}
 	// extension profiles decode through the embedding-aware helpers: three more
 	// sweeps, algorithms rotating
-	for i, p := range []string{"xp2", "xw", "xp1", "xc"} {
+	for i, p := range []string{"xp2", "xw", "xp1", "xc", "xk"} {
 		out = append(out, [2]string{allAlgs[(i*2)%len(allAlgs)], p})
 	}
 	return out
@@ -106,7 +106,7 @@ func (netWorld) Gen(prop, tier string, idx int, r *Rng) *Trace {
 		return &Trace{World: "W-NET", Cfg: cj, Ops: ops}
 	}
 	nAtt := r.Range(2, 5)
-	fams := []string{"p1", "p2", "p1", "p2", "xp2", "xw", "xc"}
+	fams := []string{"p1", "p2", "p1", "p2", "xp2", "xw", "xc", "xk"}
 	for i := 0; i < nAtt; i++ {
 		a := NetAttester{Signer: genSignerSpec(r, prop == "C02" && tier == "quick"), ViaSetters: r.Chance(1, 3), Decoded: r.Chance(1, 4)}
 		if i > 0 && r.Chance(1, 3) {
@@ -329,11 +329,40 @@ func (netWorld) Exec(prop string, t *Trace) *Result {
 		ev   *psatoken.Evidence
 		hs   cose.Signer
 		spec SignerSpec // the key it holds right now
+		// the key of the token its Evidence last decoded (-9: none)
+		absorbedKey int
+	}
+	// by-value copies of Evidences that decoded somebody's token (handed to an auditor, say):
+	// whatever the original goes on to do, a copy verifies under the token's key at most
+	type heldCopy struct {
+		ev       psatoken.Evidence
+		key      int
+		accepted bool
+		at       int
+	}
+	var heldCopies []*heldCopy
+	checkCopies := func(step int, otherKey int) {
+		if !c02 {
+			return
+		}
+		for _, hc := range heldCopies {
+			for _, k := range []int{hc.key, otherKey} {
+				if k == hc.key && hc.accepted {
+					continue
+				}
+				k := k
+				res.Evals++
+				if safely(func() string { return okOrErr(hc.ev.Verify(pubKey(k))) }) == "ok" {
+					res.violate("C02", "accepts-under-wrong-key", "held-copy", step, "a by-value copy (taken at step %d) of an Evidence that had decoded a token for key %d (accepted then: %v) now verifies under key %d", hc.at, hc.key, hc.accepted, k)
+				}
+			}
+		}
+		res.Probes["held_copies_reverified"] += len(heldCopies)
 	}
 	atts := make([]*attState, len(cfg.Attesters))
 	for i := range cfg.Attesters {
 		a := &cfg.Attesters[i]
-		st := &attState{ev: &psatoken.Evidence{}}
+		st := &attState{ev: &psatoken.Evidence{}, absorbedKey: -9}
 		for j := range a.Claims {
 			var c psatoken.IClaims
 			var err error
@@ -577,6 +606,16 @@ func (netWorld) Exec(prop string, t *Trace) *Result {
 				led.add(spec.Key, triple)
 			}
 			shape += cfg.Attesters[op.A].Claims[op.B].claimsShape() + spec.Alg + fmt.Sprint(spec.Key, op.C%3) + ";"
+			if c02 && e == st.ev && st.absorbedKey != -9 && st.absorbedKey != spec.Key {
+				// the Evidence that had decoded (and verified) somebody else's token now holds this attester's envelope
+				ak := st.absorbedKey
+				res.Evals++
+				if safely(func() string { return okOrErr(e.Verify(pubKey(ak))) }) == "ok" {
+					res.violate("C02", "accepts-under-wrong-key", "signing-evidence", i, "after signing with key %d, the Evidence still verifies under key %d, whose token it had decoded before", spec.Key, ak)
+				}
+				res.Probes["signing_evidence_checked_under_absorbed_key"]++
+			}
+			checkCopies(i, spec.Key)
 			if !c03 {
 				break
 			}
@@ -711,6 +750,12 @@ func (netWorld) Exec(prop string, t *Trace) *Result {
 				err := atts[op.A].ev.UnmarshalCOSE(append([]byte{}, src.cur...))
 				res.logf("%d absorb att=%d err=%s", i, op.A, okOrErr(err))
 				res.Probes["attester_evidence_decoded_before_sign"]++
+				if err == nil {
+					// the attester checks what it received, and an auditor gets a copy of the Evidence
+					acc := safely(func() string { return okOrErr(atts[op.A].ev.Verify(pubKey(src.key))) }) == "ok"
+					atts[op.A].absorbedKey = src.key
+					heldCopies = append(heldCopies, &heldCopy{ev: *atts[op.A].ev, key: src.key, accepted: acc, at: i})
+				}
 			}
 		case "craft":
 			if op.A < 0 || op.A >= len(atts) {
